@@ -146,6 +146,10 @@ def load_benign(pid):
                 files = set(p["anchors"]["files"])
     except (OSError, ValueError, KeyError):
         return out
+    try:
+        expected = json.load(open(os.path.join(root, "EXPECTED.json")))
+    except (OSError, ValueError):
+        expected = {}
     for d in sorted(os.listdir(root)):
         pp = os.path.join(root, d, "patch.diff")
         if not os.path.exists(pp):
@@ -153,7 +157,7 @@ def load_benign(pid):
         touched = set(re.findall(r"^\+\+\+ b/(\S+)", open(pp).read(), re.M))
         if not (touched & files):
             continue
-        expect = "error" if (d == "R2-6" and pid in ("C01", "C02")) else "clean"
+        expect = expected.get(d, {}).get(pid, "clean")
         out.append(dict(name=f"benign:{d}", patch=pp, expect=expect))
     return out
 
